@@ -6,6 +6,11 @@ ALL = ["C%02d" % i for i in range(1, 21)]
 
 # id -> (level category, engine, technique, level text, level note, design ref)
 CLAIMED = {
+ "C07": ("model_checking", "E2 enumeration over trees x targets x parameter values",
+         "bounded exhaustive enumeration of data trees, target selections and query parameter values (and pairs), each constrained read executed on the real code and compared with the projection computed by a reference model from the unconstrained tree",
+         "For two full trees (lists of 4 entries, nested lists of 3, config/non-config mix, defaults) and every generated tree to the size bound, from every target selection present (root, containers, lists, entries): every content value, every depth 1..schema depth+2, every fields and fc.xfields expression over the schema paths below the target (single, multi-segment, alternatives, grouped, nested groups, unknown names, malformed brackets), with-defaults, every fc.range window 0<=s<=e<=n+1 and open-ended on top-level and nested lists, fc.max-node-count 0..containers+1, the invalid values of each, and all pairs of parameters; applied through Selection.Constrain and Find(path?query). The read is captured by a reference store and must equal the model projection (intersection for pairs), one end-row convention must explain all windows, invalid values must be errors, unknown/malformed field expressions must not panic, and the source data must be unchanged.",
+         "trusted: reference projection model (internal/model/project.go) with the conventions of DESIGN.md 4a (list and entry count as one level; an entry keeps its key; empty containers left by a filter are compared as absent)",
+         "DESIGN.md sections 4a and 7 C07"),
  "C19": ("model_checking", "E2 enumeration over data trees and input interleavings",
          "bounded exhaustive enumeration of trees/text alphabets through both real XML writers and the XML reader, plus every order-preserving interleaving of sibling elements on input, compared with the tree",
          "Every tree up to the size bound over three structural schemas, lists of 0..5 entries and an all-types baseline with each leaf over its value alphabet (XML-hostile text: markup characters, quotes, CDATA terminator, outer/inner whitespace, tab/newline/CR, non-ASCII, non-BMP) is written by XMLWtr2 (compact and pretty) and the streaming XMLWtr; the output must be a single-root well-formed document for encoding/xml and must read back through ReadXMLDoc + UpsertFrom to the same tree. Harness-rendered documents are permuted into every interleaving of sibling elements that keeps the order within each list/leaf-list (top level, inside a list entry, inside a container) and each must read to the same tree.",
